@@ -45,4 +45,7 @@ def run(prog: Program, col: Collector, tier: str, refs: Optional[Refs] = None, c
     algebra.r_reduce_rules_keep_absent_vars(prog, col, refs, cat, "R02.14")
     algebra.r_size_product_over_sequence(prog, col, refs, cat, "R02.15")
     algebra.r_contraction_rules_cover_reduced_vars(prog, col, refs, cat, "R02.16")
+    col.rule("R02.17", "fusing nested substitutions keeps every outer pair and hands the whole outer substitution to every inner value", floor=2)
+    from . import c04
+    c04._fusion(prog, col, refs, cat)
     return col
